@@ -737,6 +737,14 @@ impl Monitor for HeapMonitor {
                 None => false,
             };
             if !terminated {
+                // (7) a live process reads an awaited result only while the select that awaited it is
+                // being evaluated; once that select is over (no select state) the copy kept in the
+                // awaiting table can be read by no program - the next select listing the process asks
+                // again - and must not stay counted: a long-lived awaiter would grow without bound
+                if p.select_state.is_none() && p.awaiting.values().flatten().any(has_heap) {
+                    return Some(Violation::new(prop, "leak", "awaited-result-pinned-after-select", format!("worker {wi}: process {pid} is not in a select, yet its table of awaited results still holds heap binaries (of {:?}) that no program can read", p.awaiting.iter().filter(|(_, v)| v.as_ref().is_some_and(has_heap)).map(|(k, _)| *k).collect::<Vec<_>>()), world.steps));
+                }
+                self.probe("live_process_outside_select_holds_no_awaited_result");
                 continue;
             }
             let pinned_by = if p.stack.iter().any(has_heap) {
